@@ -13,7 +13,8 @@ from scipy.special import gamma, kv
 
 from harness import core
 
-PARAMS = [(0.5, 0.2, 20.0), (0.1, 0.15, 50.0), (0.05, 0.1, 10.0), (0.005, 0.1, 200.0), (0.02, 0.15, 1000.0)]   # (pixel scale, r0, L0)
+# consecutive entries 1-2 share geometry and L0 but not r0; entry 3 has a stencil longer than the outer scale
+PARAMS = [(0.5, 0.2, 20.0), (0.5, 0.05, 20.0), (0.5, 0.2, 3.0), (0.1, 0.15, 50.0), (0.05, 0.1, 10.0), (0.005, 0.1, 200.0), (0.02, 0.15, 1000.0)]   # (pixel scale, r0, L0)
 
 
 class ScriptedGenerator(np.random.Generator):
@@ -213,7 +214,7 @@ def run(run):
     worst = dict(res_A=0.0, res_B=0.0)
     built = 0
     for c in sorted(r.printed, key=lambda d: (d["variant"], d["req"], d["ncol"], d["f"])):
-        for params in (PARAMS if (quick and c["nx"] <= 9) or not quick else PARAMS[:2] + PARAMS[3:]):
+        for params in (PARAMS if (quick and c["nx"] <= 9) or not quick else PARAMS[:4] + PARAMS[5:]):
             with np.errstate(all="ignore"):
                 bad, info = check_config(ips, c, params, rng)
             if bad is None:
